@@ -822,6 +822,14 @@ package decoder
 //@   loop 1: invariant s.cursor == old(s.cursor) && len(s.buf) >= old(len(s.buf))
 //@   loop 1: invariant forall k :: 0 <= k && k < s.cursor ==> s.buf[k] == old(s.buf[k])
 
+// pure test of a window: true exactly if every byte is a hexadecimal digit
+//@ func isHexDigits(b) (ok)
+//@   props C09 C15 C06 C05
+//@   ensures ok <==> (forall k :: 0 <= k && k < len(b) ==> ((b[k] >= '0' && b[k] <= '9') || (b[k] >= 'a' && b[k] <= 'f') || (b[k] >= 'A' && b[k] <= 'F')))
+//@   assigns nothing
+//@   loop 1: invariant -1 <= rangeindex && rangeindex < len(b)
+//@   loop 1: invariant forall k :: 0 <= k && k <= rangeindex ==> ((b[k] >= '0' && b[k] <= '9') || (b[k] >= 'a' && b[k] <= 'f') || (b[k] >= 'A' && b[k] <= 'F'))
+
 // the escaped key character helper of the stream scanners: every slice it takes lies inside the
 // delivered data, and it leaves the cursor on the last byte of the (single or paired) escape
 //@ func decodeKeyCharByUnicodeRuneStream(s) (chars, err)
